@@ -4,6 +4,7 @@ import PcfgVerif.Generated.EditRules
 # edit_rules.py
 
 Model of `edit_length`, `edit_terminal_set`, `check_regex` and their composition in `edit_rules`,
+(`_context_value_lengths` enters as the pair `ctx`: shortest and longest value of `Context/1.txt`)
 on the text of `Grammar/grammar.txt`.  The user's regexes are an abstract predicate on the structure
 string.  `none` = an exception escapes (missing TAB, a letter without digits where `int()` is applied).
 -/
@@ -32,25 +33,30 @@ def tokenize (line : CPs) : List CPs := tokGo line none
 def digitsVal (ds : CPs) : Option Nat :=
   if ds.isEmpty then none else some (ds.foldl (fun a d => a * 10 + (d - 48)) 0)
 
-/-- contribution of one token to `total_length` -/
-def tokenLen (tok : CPs) : Option Nat :=
+/-- `context_lengths[i]` of the pair (shortest, longest) context-sensitive value -/
+def ctxAt (ctx : Nat × Nat) (i : Nat) : Nat := if i = 0 then ctx.1 else ctx.2
+
+/-- contribution of one token to (`shortest_length`, `longest_length`); `ctx` = `context_lengths` -/
+def tokenLen (ctx : Nat × Nat) (tok : CPs) : Option (Nat × Nat) :=
   match tok with
-  | [] => some 0
+  | [] => some (0, 0)
   | c :: ds =>
     let ch := Char.ofNat c
-    if Generated.EditRules.isA ch then digitsVal ds
-    else if Generated.EditRules.isD ch then digitsVal ds
-    else if Generated.EditRules.isY ch then some Generated.EditRules.yearLen
-    else if Generated.EditRules.isO ch then digitsVal ds
-    else if Generated.EditRules.isK ch then digitsVal ds
-    else if Generated.EditRules.isX ch then digitsVal ds
-    else some 0
+    let same : Option (Nat × Nat) := (digitsVal ds).map fun n => (n, n)
+    if Generated.EditRules.isA ch then same
+    else if Generated.EditRules.isD ch then same
+    else if Generated.EditRules.isY ch then some (Generated.EditRules.yearLenLo, Generated.EditRules.yearLenHi)
+    else if Generated.EditRules.isO ch then same
+    else if Generated.EditRules.isK ch then same
+    else if Generated.EditRules.isX ch then
+      (digitsVal ds).map fun n => (n * ctxAt ctx Generated.EditRules.ctxLoIdx, n * ctxAt ctx Generated.EditRules.ctxHiIdx)
+    else some (0, 0)
 
-def totalLen : List CPs → Option Nat
-  | [] => some Generated.EditRules.totalStart
+def totalLen (ctx : Nat × Nat) : List CPs → Option (Nat × Nat)
+  | [] => some (Generated.EditRules.startLo, Generated.EditRules.startHi)
   | t :: ts =>
-    match tokenLen t, totalLen ts with
-    | some a, some b => some (a + b)
+    match tokenLen ctx t, totalLen ctx ts with
+    | some a, some b => some (a.1 + b.1, a.2 + b.2)
     | _, _ => none
 
 /-- `prob = line.split('\t')[1].strip()` -/
@@ -63,21 +69,21 @@ def structField (line : CPs) : CPs := (pySplit 0x09 line).headD []
 
 def rebuild (toks : List CPs) (prob : CPs) : CPs := toks.flatten ++ [0x09] ++ prob ++ [0x0a]
 
-/-- `edit_length(grammar, min_length, max_length)` on the lines of the text -/
-def editLengthLines (mn mx : Nat) : List CPs → Option (List CPs)
+/-- `edit_length(grammar, min_length, max_length, context_lengths)` on the lines of the text -/
+def editLengthLines (ctx : Nat × Nat) (mn mx : Nat) : List CPs → Option (List CPs)
   | [] => some []
   | line :: rest =>
-    if line.isEmpty then editLengthLines mn mx rest
+    if line.isEmpty then editLengthLines ctx mn mx rest
     else
       match probField line with
       | none => none
       | some prob =>
         let toks := tokenize line
-        if toks.isEmpty then editLengthLines mn mx rest
+        if toks.isEmpty then editLengthLines ctx mn mx rest
         else
-          match totalLen toks, editLengthLines mn mx rest with
+          match totalLen ctx toks, editLengthLines ctx mn mx rest with
           | some total, some more =>
-            if Generated.EditRules.keepLen total mn mx then some (rebuild toks prob :: more) else some more
+            if Generated.EditRules.keepLen total.1 total.2 mn mx then some (rebuild toks prob :: more) else some more
           | _, _ => none
 
 /-- `edit_terminal_set(grammar, terminal_set)`; `allowed` = first letters listed -/
@@ -111,6 +117,8 @@ def checkRegexLines (ok : CPs → Bool) : List CPs → Option (List CPs)
 def textLines (text : CPs) : List CPs := pySplit 0x0a text
 
 structure EditCfg where
+  /-- `_context_value_lengths(rule)`: (shortest, longest) value of `Context/1.txt`, (1, 1) if there is none -/
+  ctx : Nat × Nat := (1, 1)
   minLen : Nat := 0
   maxLen : Nat := 0
   terminalSet : Option (List Nat) := none
@@ -119,7 +127,7 @@ structure EditCfg where
 /-- `edit_rules(config)`: the new text of grammar.txt -/
 def editRules (cfg : EditCfg) (text : CPs) : Option CPs :=
   let step1 : Option CPs :=
-    if cfg.minLen != 0 || cfg.maxLen != 0 then (editLengthLines cfg.minLen cfg.maxLen (textLines text)).map List.flatten
+    if cfg.minLen != 0 || cfg.maxLen != 0 then (editLengthLines cfg.ctx cfg.minLen cfg.maxLen (textLines text)).map List.flatten
     else some text
   let step2 : Option CPs := step1.bind fun t =>
     match cfg.terminalSet with
